@@ -72,7 +72,10 @@ def run(tier, seed, replay=None):
         cs = cases(tier, seed)
         far = 3.0 * tc.R
         scns = [tc.scenario("multi", [tc.cell(i, i * far, level=2) for i in range(4)], [{"iter": 5, "do": "ready", "cell": c} for c in (0, 2, 3)], T_ns=1200, threads=8),
-                tc.scenario("multi1", [tc.cell(i, i * far, level=2) for i in range(3)], [{"iter": 0, "do": "ready", "cell": c} for c in (0, 1, 2)], T_ns=700, threads=1)]
+                tc.scenario("multi1", [tc.cell(i, i * far, level=2) for i in range(3)], [{"iter": 0, "do": "ready", "cell": c} for c in (0, 1, 2)], T_ns=700, threads=1),
+                # successive division rounds on the same id counter, daughters of an earlier round still alive (and dividing) in a later one
+                tc.scenario("rounds", [tc.cell(i, i * far, level=2) for i in range(3)], [{"iter": 0, "do": "ready", "cell": 0}, {"iter": 5, "do": "ready", "cell": 1},
+                                                                                         {"iter": 10, "do": "ready", "cell": 3}, {"iter": 10, "do": "ready", "cell": 2}], T_ns=1700, threads=4)]
     n_div = n_fail = 0
     if cs:
         cp, op = os.path.join(work, "cases.ndjson"), os.path.join(work, "out.ndjson")
